@@ -307,7 +307,9 @@ def gen_pwlfn(rng, stream="main", shared_only=False):
   miv, mov = None, None
   if miss != "none":
     rr = rng.random()
-    miv = imin - rng.randint(1, 5) if rr < 0.5 else (qd((imin + imax) / 2, dtype) if rr < 0.8 else imin)
+    # every value handed to BOTH sides must be representable in the case's dtype (an unrepresentable
+    # missing_input_value rounds onto a neighbouring float32 input and the real code then sees `x == missing`)
+    miv = qd(imin - rng.randint(1, 5), dtype) if rr < 0.5 else (qd((imin + imax) / 2, dtype) if rr < 0.8 else imin)
     if miss == "fixed":
       mov = Fraction(rng.randint(-40, 40), 4)
   cols = 1 if units == 1 else rng.choice([1, units])
